@@ -876,6 +876,111 @@ def witness(o, model):
     return t
 
 
+def replay_composition(cd):
+    """Native instance of the abstract-member contracts (Field presence/length, Envelope, Envelope.F, Sequence): a concrete protocol built
+    from the real classes - fixed, conditional, value-dependent-length, nested and repeated members - against a reference encoder written
+    here; random values, then every damaged form (short read, tail octets with and without check_len, fixed length mismatch)"""
+    import random
+    rnd = random.Random(16)
+    calls = []
+
+    class Item(cd.Envelope):
+        STRUCT = (cd.Uint("T"), cd.Uint("L"), cd.Buf("V"))
+
+        def __init__(self, *a, **k):
+            cd.Envelope.__init__(self, *a, **k)
+            self.STRUCT[-1].get_len = lambda v, _: v["L"]
+            self.STRUCT[-1].get_val = lambda v: v["V"]
+
+    class Inner(cd.Envelope):
+        STRUCT = (cd.Uint16BE("x"), cd.Buf("y", len=2))
+
+    class Outer(cd.Envelope):
+        def __init__(self, *a, **k):
+            cd.Envelope.__init__(self, *a, **k)
+            opt, var = cd.Uint("o"), cd.Buf("d")
+            opt.get_pres = lambda v: bool(v["a"] & 1)
+            var.get_len = lambda v, _: v["a"] % 4
+            self.STRUCT = (cd.Uint("a"), cd.Uint16BE("b"), cd.Buf("c", len=3), cd.Spare("s", len=2), opt, var,
+                           Inner().f("in", len=4), cd.Sequence(item=Item()).f("tlv"))
+
+        def check(self, vals):
+            calls.append(dict(vals))
+
+    def rand_vals():
+        a = rnd.randrange(256)
+        v = {"a": a, "b": rnd.randrange(65536), "c": bytes(rnd.randrange(256) for _ in range(3)), "d": bytes(rnd.randrange(256) for _ in range(a % 4)),
+             "in": {"x": rnd.randrange(65536), "y": bytes(rnd.randrange(256) for _ in range(2))}, "tlv": []}
+        if a & 1:
+            v["o"] = rnd.randrange(256)
+        for _ in range(rnd.randrange(4)):
+            n = rnd.randrange(5)
+            v["tlv"].append({"T": rnd.randrange(256), "L": n, "V": bytes(rnd.randrange(256) for _ in range(n))})
+        return v
+
+    def ref_enc(v):
+        out = bytes([v["a"], v["b"] >> 8, v["b"] & 255]) + v["c"] + b"\0\0"
+        if v["a"] & 1:
+            out += bytes([v["o"]])
+        out += v["d"] + bytes([v["in"]["x"] >> 8, v["in"]["x"] & 255]) + v["in"]["y"]
+        for it in v["tlv"]:
+            out += bytes([it["T"], it["L"]]) + it["V"]
+        return out
+    bad = []
+
+    def attempt(fn):
+        try:
+            return ("ok", fn())
+        except (cd.DecodeError, cd.EncodeError) as e:
+            return (type(e).__name__, None)
+        except Exception as e:
+            return ("raises %s: %s" % (type(e).__name__, e), None)
+    for k in range(200):
+        v = rand_vals()
+        wire = ref_enc(v)
+        e = Outer()
+        e.c.update(v)
+        del calls[:]
+        got = attempt(e.to_bytes)
+        if got != ("ok", wire) or len(calls) != 1:
+            bad.append({"direction": "encode", "values": repr(v)[:200], "observed": [got[0], got[1].hex() if got[1] is not None else None, len(calls)], "expected": ["ok", wire.hex(), 1]})
+        d = Outer()
+        d.c["stale"] = 1
+        del calls[:]
+        got = attempt(lambda: d.from_bytes(wire))
+        if got != ("ok", len(wire)) or d.c != v or len(calls) != 1:
+            bad.append({"direction": "decode", "wire": wire.hex(), "observed": [got, repr(d.c)[:200]], "expected": [len(wire), repr(v)[:200]]})
+        # a datagram cut inside any member is refused; cut exactly after the nested envelope it is the same message without items
+        head = len(wire) - sum(2 + it["L"] for it in v["tlv"])
+        for cut in range(len(wire)):
+            got = attempt(lambda: Outer().from_bytes(wire[:cut]))
+            # inside the repeated part a cut between two items leaves a shorter, valid list
+            bounds = [head]
+            for it in v["tlv"]:
+                bounds.append(bounds[-1] + 2 + it["L"])
+            want = "ok" if cut in bounds else "DecodeError"
+            if got[0] != want:
+                bad.append({"direction": "decode", "wire": wire[:cut].hex(), "cut_of": wire.hex(), "observed": got[0], "expected": want})
+                break
+        if k < 40:
+            # trailing octets after a fixed structure: refused with check_len, reported consumed length without
+            wire_i = bytes([1, 2, 3, 4])
+            for check_len in (True, False):
+                got = attempt(lambda: Inner(check_len=check_len).from_bytes(wire_i + b"\xff" * (k % 3 + 1)))
+                want = ("DecodeError", None) if check_len else ("ok", 4)
+                if got != want:
+                    bad.append({"direction": "decode", "check_len": check_len, "observed": got, "expected": want})
+            wrong = Outer()
+            wrong.c.update(dict(v, c=v["c"] + b"\0"))
+            got = attempt(wrong.to_bytes)
+            if got[0] != "EncodeError":
+                bad.append({"direction": "encode", "values": "fixed 3-octet member given 4 octets", "observed": got[0], "expected": "EncodeError"})
+        if len(bad) > 6:
+            break
+    return {"confirmed": bool(bad), "observed": bad[:4] or "as specified",
+            "expected": "members in order, absent members skipped, value-dependent lengths honoured, nested and repeated members, short reads / tails / length mismatches refused"}
+
+
 def replay(payload):
     f = payload["inputs"]
     cd = toolkit("codec")
@@ -968,4 +1073,39 @@ def replay(payload):
             if what == "Spare" and out != {}:
                 return {"confirmed": True, "observed": out, "expected": "content ignored (nothing stored)"}
         return {"confirmed": False, "observed": "as specified on %d inputs" % len(datas)}
-    return {"confirmed": False, "error": "no native replay for %r (abstract-member contracts have no concrete input)" % what}
+    if what in ("bf_fixed", "bf_fixed_enc", "bf_ovf"):
+        bad = []
+        fx = cd.BitFieldSet(set=(cd.BitField("a", 3, val=5), cd.BitField.Spare(2), cd.BitField("b", 3)))
+        if what == "bf_fixed":
+            for octet in range(256):
+                out = {}
+                try:
+                    fx.from_bytes(out, bytes([octet]))
+                    got = ("ok", out.get("b"))
+                except cd.DecodeError:
+                    got = ("DecodeError", None)
+                except Exception as e:
+                    got = ("raises %s" % type(e).__name__, None)
+                want = ("ok", octet % 8) if octet // 32 == 5 else ("DecodeError", None)
+                if got != want:
+                    bad.append({"octet": octet, "observed": got, "expected": want})
+        elif what == "bf_fixed_enc":
+            for vb in list(range(8)) + [8, 9, 255, 1 << 40]:
+                try:
+                    got = list(fx.to_bytes({"b": vb}))
+                except Exception as e:
+                    got = "raises %s: %s" % (type(e).__name__, e)
+                if got != [5 * 32 + vb % 8]:
+                    bad.append({"b": vb, "observed": got, "expected": [5 * 32 + vb % 8]})
+        else:
+            try:
+                cd.BitFieldSet(len=1, set=(cd.BitField("a", 5), cd.BitField("b", 4)))
+                bad.append({"layout": "5 + 4 bits in one octet", "observed": "accepted", "expected": "ProtocolError"})
+            except cd.ProtocolError:
+                pass
+            except Exception as e:
+                bad.append({"layout": "5 + 4 bits in one octet", "observed": "raises %s" % type(e).__name__, "expected": "ProtocolError"})
+        return {"confirmed": bool(bad), "observed": bad[:4] or "as specified", "expected": "fixed value checked / encoded, spare bits zero, overflow refused"}
+    if what.split(".")[0] in ("field", "env", "seq"):
+        return replay_composition(cd)
+    return {"confirmed": False, "error": "no native replay for %r" % what}
